@@ -242,13 +242,14 @@ def readUntilImageData (cfg : Cfg) (t : TCfg) (r : R) : R × Except Res Unit :=
     match infoOf r' with
     | none => (r', .error (.panic "info().unwrap()"))
     | some i =>
-      match bppFromUsize (bytesPerPixel i.color i.depth) with
-      | none => (r', .error (.panic "unreachable!(bpp) (common.rs:846)"))
-      | some bpp =>
-        let r2 := { r' with sub := Sub.new i, bpp := bpp, ub := UB.new }
-        match reserveBytes r2 (outLineSize t i r2.flags (Sub.new i).width) with
-        | .error e => (r2, .error e)
-        | .ok r3 => (r3, .ok ())
+      -- the row buffers of the new (sub)frame are asked for BEFORE it is installed (repair 0a2b38f): a refusal keeps the
+      -- old sub-frame, marked consumed, and ends the decoding of image data (no rows, no further frames)
+      match reserveBytes r' (outLineSize t i r'.flags (Sub.new i).width) with
+      | .error e => ({ r' with sub := { r'.sub with cur := none, caf := true }, remaining := 0 }, .error e)
+      | .ok r3 =>
+        match bppFromUsize (bytesPerPixel i.color i.depth) with
+        | none => (r3, .error (.panic "unreachable!(bpp) (common.rs:846)"))
+        | some bpp => ({ r3 with sub := Sub.new i, bpp := bpp, ub := UB.new }, .ok ())
 
 /-- `Decoder::read_info` (mod.rs:190-236) -/
 def readInfo' (cfg : Cfg) (t : TCfg) (r : R) : R × Res :=
